@@ -56,3 +56,11 @@ Fixpoint check_routes (i : nat) (sts : list (list entry)) (trs : list (list (nat
   end.
 Definition check_gcase (c : gcase) : list nat :=
   let (h, trs) := c in check_routes 0 (routes (rrun h)) trs.
+
+(* throwing layers: (priority, (pre, throws before $next, post, throws after $next)) *)
+Definition tcase := (list (Z * (list op * bool * list op * bool)) * list op * bool * list op * obs)%type.
+Definition check_tcase (c : tcase) : list nat :=
+  let '(mws, h, ht, e, o) := c in
+  let mk := fun m : Z * (list op * bool * list op * bool) =>
+    let '(p, (a, ta, b, tb)) := m in (p, {| l_pre := a; l_tpre := ta; l_post := b; l_tpost := tb |}) in
+  check_case (server_ops_t (map mk mws) h ht e, o).
